@@ -85,7 +85,7 @@ StrFillOutcomes(e) ==
                  IF i < d + cnt THEN Ex(v, {"C06"})
                  ELSE IF i < d + len THEN Same({"C06"})
                  ELSE IF i = d + len THEN Same({"C03"})
-                 ELSE IF e.slack = 1 THEN Ex(0, {"C08"}) ELSE Cell("oz", 0, {"C06"})]))}
+                 ELSE IF e.slack = 1 /\ cnt = len THEN Ex(0, {"C08"}) ELSE Cell("oz", 0, {"C06"})]))}
 
 (* memccpy_s: copy through the first occurrence of c (inclusive) or n bytes *)
 MemccpyOutcomes(e) ==
@@ -106,7 +106,7 @@ MemccpyOutcomes(e) ==
                         IF i < d + k THEN Ex(a[s + (i - d)], {"C06"})
                         ELSE IF i < d + n \/ (i = d + n /\ ~found) THEN Cell("oz", 0, {"C06"})   \* documented nulling of the rest
                         ELSE Same({"C06", "C01"})])
-              ok == {OkOut(okm)} \cup (IF ~found /\ n = dmax THEN Errs({ESNOSPC}, MemCleared(e)) ELSE {})
+              ok == {OkOut(okm)} \cup (IF ~found /\ n = dmax THEN Errs({ESNOSPC}, ClearedMem(e, TRUE)) ELSE {})
           IN IF must THEN ovl ELSE IF disj THEN ok ELSE ok \cup ovl
 
 MemOpsOutcomes(e) ==
